@@ -5,21 +5,27 @@ use serde_json::Value;
 use std::path::Path;
 use std::time::Instant;
 
+pub mod c08;
 pub mod c09;
 pub mod c10;
 pub mod c11;
 pub mod c12;
+pub mod c14;
 pub mod c19;
+pub mod c20;
 
 type RunFn = fn(&Env, &Known, Instant, u64, Vec<Violation>) -> i32;
 type ReplayFn = fn(&Value) -> Outcome;
 
 const TABLE: &[(&str, RunFn, ReplayFn)] = &[
+    ("C08", c08::run, c08::replay),
     ("C09", c09::run, c09::replay),
     ("C10", c10::run, c10::replay),
     ("C11", c11::run, c11::replay),
     ("C12", c12::run, c12::replay),
+    ("C14", c14::run, c14::replay),
     ("C19", c19::run, c19::replay),
+    ("C20", c20::run, c20::replay),
 ];
 
 /// Result of replaying one saved input.
